@@ -50,6 +50,7 @@ type Options struct {
 }
 
 type World struct {
+	live *liveState
 	// MachinePanics counts operations on which an airgapped machine panicked (see ColdResult).
 	MachinePanics int
 	Opt           Options
@@ -139,6 +140,7 @@ func NewWorld(opt Options) (*World, error) {
 }
 
 func (w *World) Close() {
+	w.StopLive()
 	for _, n := range w.Nodes {
 		if n == nil {
 			continue
